@@ -44,7 +44,7 @@ ASSUMPTIONS = [
 FLOORS = {
     "quick": {"setting.enumerated": 154, "roundtrip.compare": 6000, "style.keys": 6000, "reject.assign": 2500, "reject.read": 700,
               "rename": 30, "copy.equal": 300, "copy.independent": 300, "default.explicit": 154, "subset.case": 200,
-              "structured.value": 150, "flaglist.roundtrip": 30,
+              "structured.value": 90, "flaglist.roundtrip": 30,
               "hook:SettingsWriter.writeYaml": 6000, "hook:SettingsReader._applySettings": 20000, "hook:Setting.setValue": 20000},
     "thorough": {"setting.enumerated": 154, "roundtrip.compare": 60000, "style.keys": 60000, "reject.assign": 10000, "reject.read": 5000,
                  "rename": 100, "copy.equal": 4000, "copy.independent": 4000, "default.explicit": 154, "subset.case": 5000,
@@ -175,7 +175,7 @@ def yaml_limit(ctx, src, names, label_of):
         if not yaml_library_roundtrips(n, held(src, n)):
             ctx.rec.skip("value that ruamel.yaml itself does not round-trip (control experiment without armi); class %s" % label_of.get(n, "?"))
             lst = ctx.rec.notes.setdefault("yaml_library_limit_samples", [])
-            if len(lst) < 6:
+            if len(lst) < 2:
                 lst.append({"setting": n, "class": label_of.get(n, "?"), "held": show(held(src, n))[:160]})
             return True
     return False
@@ -1225,8 +1225,8 @@ def do_each(spec, rec, rng):
             styles = ["short"]
             if not quick:
                 styles = list(STYLES)
-            elif nvalid % 4 == 1:
-                styles.append("full" if (nvalid // 4) % 2 == 0 else "medium")
+            elif nvalid % 5 == 1:
+                styles.append("full" if (nvalid // 5) % 2 == 0 else "medium")
             for style in styles:
                 if style != "short":
                     src = settings.Settings()
